@@ -493,6 +493,10 @@ class _Analysis:
             return self._arrayish(e.body) or self._arrayish(e.orelse)
         if isinstance(e, ast.Attribute):
             return e.attr in ("T", "real", "imag") and self._arrayish(e.value)
+        if isinstance(e, ast.Call) and isinstance(e.func, ast.Name):
+            fn = self.repo.funcs.get(f"{self.mod}:{e.func.id}")
+            ann = ast.unparse(fn.returns) if fn is not None and fn.returns is not None else ""
+            return any(w in ann for w in ("ndarray", "List", "list", "Dict", "dict", "Set", "set[", "Counter", "Matrix"))
         if isinstance(e, ast.Call) and isinstance(e.func, ast.Attribute):
             root = e.func.value
             while isinstance(root, ast.Attribute):
@@ -838,8 +842,9 @@ class _Analysis:
         for gfind in s.global_writes:
             self.s.global_writes.append(Finding("global-write", self.where(node), f"via {key.split(':')[1]}: {gfind.what[:120]}", gfind.target))
         ret = _subst(s.returns, binding)
-        if fn is not None and any(ast.unparse(d) == "property" for d in fn.decorator_list):
-            pass
+        if s.caches or (fn is not None and any("lru_cache" in ast.unparse(d) or ast.unparse(d).split("(")[0].split(".")[-1] in ("cache", "cached_property") for d in fn.decorator_list)):
+            # a memoised function hands out the object it keeps: whatever is done to the result in place is done to the cache (module state)
+            ret = Val(ret.top | {G}, ret.inner, ret.cls, ret.deep)
         return ret
 
     def construct(self, cls, args, kws, node) -> Val:
